@@ -19,7 +19,8 @@ EXTENDS CedarPolicy
 
 CONSTANTS PathTable,   \* sequence of [name, parts]: "NS::T" <-> <<"NS", "T">>
           NameTable,   \* sequence of [name, cps]: attribute / key names that need a string literal
-          IdTable      \* sequence of [name, cps]: entity ids (atomic names in the model) and their characters
+          IdTable,     \* sequence of [name, cps]: entity ids (atomic names in the model) and their characters
+          WordTable    \* sequence of [name, cps]: identifier-shaped words (used by the lexer only)
 
 Reserved == {"true", "false", "if", "then", "else", "in", "like", "has", "is", "__cedar"}
 Id(s)  == [t |-> IF s \in Reserved THEN "kw" ELSE "id", s |-> s]
@@ -332,6 +333,68 @@ RECURSIVE ParseListFrom(_, _, _)
 ParseListFrom(ts, i, acc) == IF i > Len(ts) THEN [ok |-> TRUE, v |-> acc]
                              ELSE LET r == ParsePolicyAt(ts, i) IN IF r.ok THEN ParseListFrom(ts, r.i, Append(acc, r.v)) ELSE Fail
 ParsePolicyList(ts) == ParseListFrom(ts, 1, <<>>)
+
+\* ------------------------------------------------------------------ lexer
+\* Lex(s): the token sequence of a text given as code points, [ok, toks].  White space is
+\* space / tab / LF / CR; comments run from // to the end of the line or from /* to */;
+\* identifiers are [A-Za-z_][A-Za-z0-9_]* (their spelling as an atomic name comes from
+\* WordTable); integers are digit runs; a string literal runs from " to the next
+\* unescaped " on the same line and keeps its raw content; operators by longest match.
+IsWs(c) == c \in {32, 9, 10, 13}
+IsIdStart(c) == c \in 65..90 \/ c \in 97..122 \/ c = 95
+IsIdCont(c) == IsIdStart(c) \/ IsDigit(c)
+WordOf(cps) == IF \E k \in DOMAIN WordTable : WordTable[k].cps = cps
+               THEN WordTable[CHOOSE k \in DOMAIN WordTable : WordTable[k].cps = cps].name ELSE "?"
+RECURSIVE IdEnd(_, _), DigEnd(_, _), StrEnd(_, _), LineEnd(_, _), BlockEnd(_, _)
+IdEnd(s, i) == IF i <= Len(s) /\ IsIdCont(s[i]) THEN IdEnd(s, i + 1) ELSE i          \* first index after the run
+DigEnd(s, i) == IF i <= Len(s) /\ IsDigit(s[i]) THEN DigEnd(s, i + 1) ELSE i
+StrEnd(s, i) == IF i > Len(s) \/ s[i] = 10 THEN 0                                    \* index of the closing quote, 0: none
+                ELSE IF s[i] = 34 THEN i
+                ELSE IF s[i] = 92 THEN (IF i + 1 > Len(s) THEN 0 ELSE StrEnd(s, i + 2))
+                ELSE StrEnd(s, i + 1)
+LineEnd(s, i) == IF i > Len(s) \/ s[i] = 10 THEN i ELSE LineEnd(s, i + 1)
+BlockEnd(s, i) == IF i + 1 > Len(s) THEN 0                                           \* index after the closing */, 0: none
+                  ELSE IF s[i] = 42 /\ s[i + 1] = 47 THEN i + 2 ELSE BlockEnd(s, i + 1)
+OpName2(a, b) == CASE a = 58 /\ b = 58 -> "::" [] a = 61 /\ b = 61 -> "==" [] a = 33 /\ b = 61 -> "!="
+                   [] a = 60 /\ b = 61 -> "<=" [] a = 62 /\ b = 61 -> ">=" [] a = 38 /\ b = 38 -> "&&"
+                   [] a = 124 /\ b = 124 -> "||" [] OTHER -> ""
+OpName1(c) == CASE c = 40 -> "(" [] c = 41 -> ")" [] c = 123 -> "{" [] c = 125 -> "}" [] c = 91 -> "[" [] c = 93 -> "]"
+                [] c = 44 -> "," [] c = 59 -> ";" [] c = 46 -> "." [] c = 58 -> ":" [] c = 60 -> "<" [] c = 62 -> ">"
+                [] c = 33 -> "!" [] c = 45 -> "-" [] c = 43 -> "+" [] c = 42 -> "*" [] c = 47 -> "/" [] c = 37 -> "%"
+                [] c = 64 -> "@" [] c = 61 -> "=" [] c = 63 -> "?" [] OTHER -> ""
+RECURSIVE LexFrom(_, _, _)
+LexWord(s, i, j, acc) == LexFrom(s, j, Append(acc, Id(WordOf(SubSeq(s, i, j - 1)))))
+LexInt(s, i, j, acc) == LexFrom(s, j, Append(acc, IntT([k \in 1..(j - i) |-> s[i + k - 1] - 48])))
+LexStr(s, i, j, acc) == IF j = 0 THEN [ok |-> FALSE] ELSE LexFrom(s, j + 1, Append(acc, StrT(SubSeq(s, i + 1, j - 1))))
+LexBlock(s, j, acc) == IF j = 0 THEN [ok |-> FALSE] ELSE LexFrom(s, j, acc)
+LexFrom(s, i, acc) ==
+  IF i > Len(s) THEN [ok |-> TRUE, toks |-> acc]
+  ELSE IF IsWs(s[i]) THEN LexFrom(s, i + 1, acc)
+  ELSE IF s[i] = 47 /\ i < Len(s) /\ s[i + 1] = 47 THEN LexFrom(s, LineEnd(s, i), acc)
+  ELSE IF s[i] = 47 /\ i < Len(s) /\ s[i + 1] = 42 THEN LexBlock(s, BlockEnd(s, i + 2), acc)
+  ELSE IF IsIdStart(s[i]) THEN LexWord(s, i, IdEnd(s, i), acc)
+  ELSE IF IsDigit(s[i]) THEN LexInt(s, i, DigEnd(s, i), acc)
+  ELSE IF s[i] = 34 THEN LexStr(s, i, StrEnd(s, i + 1), acc)
+  ELSE IF i < Len(s) /\ OpName2(s[i], s[i + 1]) # "" THEN LexFrom(s, i + 2, Append(acc, Op(OpName2(s[i], s[i + 1]))))
+  ELSE IF OpName1(s[i]) # "" THEN LexFrom(s, i + 1, Append(acc, Op(OpName1(s[i]))))
+  ELSE [ok |-> FALSE]
+Lex(s) == LexFrom(s, 1, <<>>)
+
+\* Spell(ts): one spelling of a token sequence (tokens separated by one space); Lex(Spell(ts)) = ts
+CpsOfWord(name) == WordTable[CHOOSE k \in DOMAIN WordTable : WordTable[k].name = name].cps
+OpCps(s) == CASE s = "::" -> <<58, 58>> [] s = "==" -> <<61, 61>> [] s = "!=" -> <<33, 61>> [] s = "<=" -> <<60, 61>>
+              [] s = ">=" -> <<62, 61>> [] s = "&&" -> <<38, 38>> [] s = "||" -> <<124, 124>>
+              [] s = "(" -> <<40>> [] s = ")" -> <<41>> [] s = "{" -> <<123>> [] s = "}" -> <<125>> [] s = "[" -> <<91>>
+              [] s = "]" -> <<93>> [] s = "," -> <<44>> [] s = ";" -> <<59>> [] s = "." -> <<46>> [] s = ":" -> <<58>>
+              [] s = "<" -> <<60>> [] s = ">" -> <<62>> [] s = "!" -> <<33>> [] s = "-" -> <<45>> [] s = "+" -> <<43>>
+              [] s = "*" -> <<42>> [] s = "/" -> <<47>> [] s = "%" -> <<37>> [] s = "@" -> <<64>> [] s = "=" -> <<61>>
+              [] s = "?" -> <<63>>
+Spell1(t) == CASE t.t \in {"id", "kw"} -> CpsOfWord(t.s)
+               [] t.t = "int" -> [k \in DOMAIN t.d |-> t.d[k] + 48]
+               [] t.t = "str" -> <<34>> \o t.raw \o <<34>>
+               [] OTHER -> OpCps(t.s)
+RECURSIVE Spell(_)
+Spell(ts) == IF ts = <<>> THEN <<>> ELSE Spell1(Head(ts)) \o <<32>> \o Spell(Tail(ts))
 
 \* ------------------------------------------------------------------ renderer
 \* grammar level of a node: 0 Expr(if) 1 Or 2 And 3 Relation 4 Add 5 Mult 6 Unary 7 Member 8 Primary
